@@ -234,7 +234,10 @@ def field_tables(prog, rep):
     for n in walk_own(mu.node):
         if isinstance(n, ast.Assign) and isinstance(n.targets[0], ast.Subscript) and isinstance(n.targets[0].slice, ast.Constant) and _base_text(n.targets[0].value, mu).startswith("self._metadata["):
             umap[_strip_json(n.value)] = n.targets[0].slice.value
-    rep.check(umap == UPDATE_MAP, "FIELDS", mu.short, "update table", f"{umap}", f"update_bucket writes parameter->key {umap}, expected {UPDATE_MAP}", mu.loc(), expected=UPDATE_MAP, found=umap)
+    if not umap:
+        rep.undecided("FIELDS", mu.short, "update table", "no keyed write into the stored metadata found (another representation of the stored record?)", mu.loc())
+    else:
+      rep.check(umap == UPDATE_MAP, "FIELDS", mu.short, "update table", f"{umap}", f"update_bucket writes parameter->key {umap}, expected {UPDATE_MAP}", mu.loc(), expected=UPDATE_MAP, found=umap)
     # starts empty
     okE = any(isinstance(n, ast.Assign) and norm(n.targets[0]) == f"self.db[{bparam(mc)}]" and norm(n.value) in ("[]", "list()") for n in walk_own(mc.node))
     rep.check(okE, "FIELDS", mc.short, "starts empty", "self.db[bucket_id] = []", "a created bucket does not start with an empty event list", mc.loc())
